@@ -187,6 +187,7 @@ def run(ctx):
 
 def replay(ctx, data):
     tool = data.get('tool'); lines = data.get('lines', [])
+    if tool == 'allocfail': return vlib.allocfail_replay(data)
     if tool == 'asan':
         exe = vlib.build_harness('mem_drv.cpp', vlib.build_lib('asan'), 'spqlios-fma', 'asan')
         rc, out, err = run_san(exe, lines, dict(os.environ, ASAN_OPTIONS='detect_leaks=1:exitcode=99'), 7200); print('exit', rc, out[-200:], err[-1500:])
